@@ -21,6 +21,9 @@ Decided clause:
        cleared / forced in the local copy before any use) while each of the other 251 scalar bits
        can; bit 255 of the point cannot influence anything (masked by the decoder and by the
        low-order blocklist comparison) while each of the other 255 point bits can.
+  R5.6 (E16) re-entrancy: no function of the X25519 / box / kx / HSalsa20 units writes a writable static object (scratch field
+       elements in a file-scope static make concurrent key agreements corrupt each other); the implementation slot is set only
+       by *_pick_best_implementation.
   R5.5 (E12 known-bits) in the X25519 units `(hi << k) | lo` packings have provably bit-disjoint operands; the
        loosely reduced output limbs of the assembly ladder are therefore repacked with `+`.
 NOT decided: RFC 7748 values, the ladder arithmetic, the BLAKE2b values, seeded key-pair values.
@@ -83,6 +86,10 @@ def run(ctx, chk):
     # are only loosely reduced: repacking them needs `+`)
     from .. import knownbits
     knownbits.or_packing_rule(prog, chk, "R5.5", ("crypto_scalarmult/curve25519/",), floor=3)
+    # R5.6: "for every schedule": the key-agreement units keep no per-call state in static storage (E16)
+    from .. import staticstate
+    staticstate.static_state_rule(prog, chk, "R5.6", ("crypto_scalarmult/curve25519/", "crypto_scalarmult/crypto_scalarmult.c", "crypto_box/",
+                                                       "crypto_kx/", "crypto_core/hsalsa20/", "crypto_core/hchacha20/"), floor=30)
 
 
 KX = {"crypto_kx_client_session_keys": {"own_sk": 3, "peer_pk": 4, "client_pk": 2, "server_pk": 4},
